@@ -211,6 +211,19 @@ def write_replay(prop, name, content):
     d = os.path.join(VERIF, 'evidence', 'replay')
     os.makedirs(d, exist_ok=True)
     p = os.path.join(d, '%s-%s' % (prop, name))
+    # make the replay self-contained: image files of the (deleted) work directory are embedded as hex
+    try:
+        j = json.loads(content)
+        if isinstance(j, dict) and isinstance(j.get('case_text'), str) and 'image file ' in j['case_text']:
+            out = []
+            for ln in j['case_text'].split('\n'):
+                if ln.startswith('image file ') and os.path.exists(ln[11:].strip()) and os.path.getsize(ln[11:].strip()) <= (8 << 20):
+                    ln = 'image hex ' + open(ln[11:].strip(), 'rb').read().hex()
+                out.append(ln)
+            j['case_text'] = '\n'.join(out)
+            content = json.dumps(j)
+    except ValueError:
+        pass
     open(p, 'w').write(content)
     return p
 
@@ -227,3 +240,29 @@ def boundary_u64():
             if 0 <= v < (1 << 64):
                 xs.add(v)
     return sorted(xs)
+
+
+def qdrv_check(paths, workdir_, jobs=16, timeout=1500):
+    """run the extracted specification checker on many images in parallel; -> {path: {k: v}}"""
+    if not paths:
+        return {}
+    jobs = max(1, min(jobs, len(paths) // 8 + 1))
+    chunks = [paths[i::jobs] for i in range(jobs)]
+    procs = []
+    for i, ch in enumerate(chunks):
+        lst = os.path.join(workdir_, 'qdrv_%d_%d.lst' % (os.getpid(), i))
+        open(lst, 'w').write('\n'.join(ch) + '\n')
+        procs.append((lst, subprocess.Popen('ulimit -s unlimited; exec %s check %s' % (os.path.join(VERIF, 'driver', 'qdrv'), lst),
+                                            shell=True, stdout=subprocess.PIPE, stderr=subprocess.DEVNULL, text=True)))
+    res = {}
+    for lst, p in procs:
+        try:
+            out, _ = p.communicate(timeout=timeout)
+        except subprocess.TimeoutExpired:
+            p.kill()
+            out = ''
+        for ln in out.split('\n'):
+            if ln.strip():
+                res[ln.split()[0]] = dict(x.split('=', 1) for x in ln.split()[1:] if '=' in x)
+        os.remove(lst)
+    return res
